@@ -4,7 +4,11 @@ from wt_common import WT_LEAN, WT_TRUST, wt_engine, e2e_engine, E2E_TRUST
 PROP = {
     "generated": [],
     "lean_modules": ["SwimVerif.Model.MapLane", "SwimVerif.Model.ValueLane", "SwimVerif.Proofs.ValueLane",
-                     "SwimVerif.Model.AssocList"],
+                     "SwimVerif.Model.AssocList", "SwimVerif.Proofs.AssocList",
+                     "SwimVerif.Proofs.C03Queue", "SwimVerif.Proofs.C03Pop", "SwimVerif.Proofs.C03Mon",
+                     "SwimVerif.Proofs.C03Rel", "SwimVerif.Proofs.C03Inv", "SwimVerif.Proofs.C03Write",
+                     "SwimVerif.Proofs.C03Trace", "SwimVerif.Proofs.C03Bridge", "SwimVerif.Proofs.C03Strings",
+                     "SwimVerif.Proofs.C03Lines", "SwimVerif.Proofs.C03Indep", "SwimVerif.Proofs.C03Fails"],
     "engines": [
         e2e_engine("C03"),
         wt_engine("C03", quick=2000),
@@ -19,11 +23,19 @@ PROP = {
                   "sync event serves the oldest snapshot key; a live update/remove of a key removes it from every "
                   "duplicate-free snapshot; an emitted clear empties the snapshots; every emitted event counts the "
                   "waiting down; a value lane answers a sync with its current value followed by synced and keeps a "
-                  "pending change. The trace-level statement (at synced every key of the replica holds a value the "
-                  "lane held between the request and that instant — for a remote linked all along and for one that "
-                  "held nothing) is decided by the Lean monitor on traces of the REAL MapLane / ValueLane, whose "
-                  "behaviour is tied to the model by differential execution.",
-    "level_note": "The interval statement over whole traces is open as a theorem (monitor + correspondence only). "
+                  "pending change. The trace-level statement for the map lane (at synced every key of the replica holds "
+                  "a value the lane held between the request and that instant — for a remote linked all along and "
+                  "for one that held nothing; synced after all of the remote's sync events; a write that produces "
+                  "nothing finds no request outstanding and the observer converged) is PROVED for every operation "
+                  "sequence shorter than 2^64 with fresh sync ids (C03_snapshot_consistent_partial, by the inductive "
+                  "invariant ML.Inv over lane content, event queue with wrapping epochs, sync queues with their "
+                  "pending counters, and the monitor's replicas and per-key histories), and the same predicate is "
+                  "decided by the Lean monitor on traces of the REAL MapLane / ValueLane, whose behaviour is tied to "
+                  "the model by differential execution. Concurrent syncs: literal independence of the frames is "
+                  "false (witness, same on the real lane); independence up to the schedule is proved.",
+    "level_note": "The interval statement over whole traces is a theorem for the map lane model (bound 2^64 on the "
+                  "trace length: beyond it the wrapping epochs of the unbounded model alias; the full statement "
+                  "C03_snapshot_consistent is refuted for the unbounded model by C03_snapshot_consistent_fails). "
                   "The runtime half (implicit link on the first targeted response; MapSynced draining the uplink "
                   "queue) is covered by the wt engine under C04, and the composition by the end-to-end rig where "
                   "present.",
